@@ -243,6 +243,10 @@ class HSEnumerator(
         """
         if program:
             hash_program = hash(program)
+            # the first program of S must have been generated before any
+            # successor can be asked for from S
+            if 123891 not in self.succ[S]:
+                self.query(S, None)
         else:
             hash_program = 123891
 
